@@ -20,6 +20,7 @@ def regen(ctx):
     from translate import c10_tables
     t = c10_tables.regen(ctx)
     ctx.extra['source_tables'] = {'requests': t['requests'], 'handlers': t['handlers'], 'guarded': t['guarded'],
+                                  'exc_guarded': t['exc_guarded'],
                                   'has_invalid_pdu_handler': t['has_invalid_pdu_handler']}
 
 
